@@ -4,7 +4,7 @@
    element ends is one that a proper ancestor inside the subtree declares. *)
 From Coq Require Import List NArith Bool Lia.
 From XotV Require Import Model.Base Model.Zipper Model.Access Model.Store Model.Manip Model.Interning Model.InternOps
-                         Model.Fullname Model.Scope Model.NsTools Proofs.StoreProofs Proofs.KeysProofs Proofs.InvOps Proofs.NodeMapProofs.
+                         Model.Fullname Model.Scope Model.NsTools Model.Builder Spec.Shape Proofs.FullnameProofs Proofs.StoreProofs Proofs.KeysProofs Proofs.InvOps Proofs.NodeMapProofs.
 Import ListNotations.
 Open Scope N_scope.
 
@@ -22,14 +22,14 @@ Proof.
   rewrite opt_map_map. reflexivity.
 Qed.
 
-(* the declarations of the proper ancestors of [e] inside [f], nearest first *)
+(* the declarations of the proper ancestors of [e] inside [f] that are elements, nearest first *)
 Fixpoint anc_decls (e : N) (f : forest) : option (list decls) :=
   match f with
   | FNil => None
   | FCons i v k r =>
       if N.eqb i e then Some []
       else match anc_decls e k with
-           | Some l => Some (l ++ [kdecls k])
+           | Some l => Some (if is_elem v then l ++ [kdecls k] else l)
            | None => anc_decls e r
            end
   end.
@@ -37,13 +37,18 @@ Fixpoint anc_decls (e : N) (f : forest) : option (list decls) :=
 Section D.
   Variable nm : nsnames.
 
-  (* every binding in the serialiser's table is a declaration of one of the frames pushed so far *)
-  Definition table_from (s : fstack) (op : list decls) : Prop := forall b, In b (fs_top s) -> In b (concat op).
+  (* the serialiser's table is the flattened table of the frames pushed so far (nearest first) *)
+  Definition table_from (s : fstack) (op : list decls) : Prop := fs_top s = flat op [].
+
+  Lemma info_new_nil cur : info_new [] cur = cur.
+  Proof.
+    unfold info_new. rewrite app_nil_r. induction cur as [|x cur IH]; [reflexivity|]. cbn [filter has_prefix existsb negb]. f_equal. exact IH.
+  Qed.
 
   Lemma table_push s op d : table_from s op -> table_from (fs_push s d) (d :: op).
   Proof.
-    intros H b Hb. unfold fs_push in Hb. cbn [concat]. apply in_or_app. destruct d as [|d0 d']; [right; apply H; exact Hb|].
-    cbn [fs_top] in Hb. unfold info_new in Hb. apply in_app_or in Hb as [Hb|Hb]; [right; apply H; apply filter_In in Hb; tauto|left; exact Hb].
+    unfold table_from. intros H. cbn [flat]. rewrite <- H. destruct d as [|d0 d']; [cbn [fs_push]; rewrite info_new_nil; reflexivity|].
+    reflexivity.
   Qed.
 
   Lemma pop_push s d : fs_pop (fs_push s d) (match d with [] => false | _ => true end) = s.
@@ -62,7 +67,7 @@ Section D.
   (* the removals the pass decides on in the sibling list [f], every one with the frames open at that point;
      [op] = declarations of the open elements, nearest first *)
   Definition removal_ok (op : list decls) (f : forest) (x : N * list nsid) : Prop :=
-    exists l, anc_decls (fst x) f = Some l /\ forall ns, In ns (snd x) -> In ns (map snd (concat (l ++ op))).
+    exists l, anc_decls (fst x) f = Some l /\ forall ns, In ns (snd x) -> exists q, In (q, ns) (flat (l ++ op) []).
 
   Lemma removal_ok_weaken_r op i v k r x : (forall j, In j (ids (FCons i v k FNil)) -> j <> fst x) ->
     removal_ok op r x -> removal_ok op (FCons i v k r) x.
@@ -82,15 +87,19 @@ Section D.
     exists tr' R, dedup_edges nm (edges_forest ups b k ++ es) s tr acc = dedup_edges nm es s tr' (acc ++ R)
       /\ forall x, In x R -> removal_ok op k x /\ In (fst x) (ids k).
 
-  Lemma removal_ok_into op i v k r x : ~ In i (ids k) -> In (fst x) (ids k) ->
-    (removal_ok (kdecls k :: op) k x \/ removal_ok op k x) -> removal_ok op (FCons i v k r) x.
+  Lemma removal_ok_into_elem op i nmv k r x : ~ In i (ids k) -> In (fst x) (ids k) ->
+    removal_ok (kdecls k :: op) k x -> removal_ok op (FCons i (VElement nmv) k r) x.
   Proof.
-    intros Hi Hin [(l & Hl & H)|(l & Hl & H)]; exists (l ++ [kdecls k]); (split; [cbn [anc_decls];
-      destruct (N.eqb_spec i (fst x)) as [E|_]; [exfalso; apply Hi; rewrite E; exact Hin|rewrite Hl; reflexivity]|]).
-    - intros ns Hns. specialize (H ns Hns). rewrite <- app_assoc. exact H.
-    - intros ns Hns. specialize (H ns Hns). rewrite <- app_assoc. cbn [app]. rewrite concat_app in *. cbn [concat].
-      rewrite map_app in *. apply in_app_or in H as [H|H]; apply in_or_app; [left; exact H|right].
-      rewrite map_app. apply in_or_app. right. exact H.
+    intros Hi Hin (l & Hl & H). exists (l ++ [kdecls k]). split.
+    - cbn [anc_decls is_elem]. destruct (N.eqb_spec i (fst x)) as [E|_]; [exfalso; apply Hi; rewrite E; exact Hin|rewrite Hl; reflexivity].
+    - intros ns Hns. rewrite <- app_assoc. exact (H ns Hns).
+  Qed.
+
+  Lemma removal_ok_into_other op i v k r x : is_elem v = false -> ~ In i (ids k) -> In (fst x) (ids k) ->
+    removal_ok op k x -> removal_ok op (FCons i v k r) x.
+  Proof.
+    intros Hv Hi Hin (l & Hl & H). exists l. split; [|exact H].
+    cbn [anc_decls]. destruct (N.eqb_spec i (fst x)) as [E|_]; [exfalso; apply Hi; rewrite E; exact Hin|rewrite Hl, Hv; reflexivity].
   Qed.
 
   (* one node: its start edge, the edges of its children, its end edge *)
@@ -106,25 +115,25 @@ Section D.
     destruct (z_val zi) eqn:Ev.
     all: try (destruct (IHk (frame_of zi :: z_ups zi) FNil (EEnd zi :: es) s tr acc op Hndk Ht) as (tr1 & R1 & Hrun & HR);
               rewrite Hrun; cbn [dedup_edges]; rewrite Ev; exists tr1, R1; split; [reflexivity|];
-              intros x Hx; destruct (HR x Hx) as [Hok Hin]; split; [apply removal_ok_into; auto|right; exact Hin]; fail).
+              intros x Hx; destruct (HR x Hx) as [Hok Hin]; split; [apply removal_ok_into_other; auto|right; exact Hin]; fail).
     (* an element *)
     rewrite declarations_kdecls.
     destruct (IHk (frame_of zi :: z_ups zi) FNil (EEnd zi :: es) (fs_push s (kdecls (z_kids zi))) (tracker_push nm tr zi) acc
                   (kdecls (z_kids zi) :: op) Hndk (table_push _ _ _ Ht)) as (tr1 & R1 & Hrun & HR).
     rewrite Hrun. cbn [dedup_edges]. rewrite Ev, declarations_kdecls, pop_push.
     set (to_remove := opt_map _ (kdecls (z_kids zi))).
-    assert (forall ns, In ns to_remove -> In ns (map snd (concat op))) as Hrem.
+    assert (forall ns, In ns to_remove -> exists q, In (q, ns) (flat op [])) as Hrem.
     { intros ns Hns. unfold to_remove in Hns. clear - Hns Ht.
       induction (kdecls (z_kids zi)) as [|d l IH]; [destruct Hns|]. cbn [opt_map] in Hns.
       destruct (is_namespace_known s (snd d) && tracker_safe (tl tr1) (snd d)) eqn:E; [|exact (IH Hns)].
       destruct Hns as [<-|Hns]; [|exact (IH Hns)]. apply andb_true_iff in E as [E _].
-      unfold is_namespace_known in E. apply existsb_exists in E as (b & Hb & He). apply N.eqb_eq in He.
-      rewrite <- He. apply in_map. apply Ht. exact Hb. }
+      unfold is_namespace_known in E. apply existsb_exists in E as ([q m] & Hb & He). cbn [snd] in He. apply N.eqb_eq in He. subst m.
+      exists q. rewrite <- Ht. exact Hb. }
     exists (tl tr1). destruct to_remove as [|t0 tl0] eqn:Er.
-    - exists R1. split; [reflexivity|]. intros x Hx. destruct (HR x Hx) as [Hok Hin]. split; [apply removal_ok_into; auto|right; exact Hin].
+    - exists R1. split; [reflexivity|]. intros x Hx. destruct (HR x Hx) as [Hok Hin]. split; [apply removal_ok_into_elem; auto|right; exact Hin].
     - exists (R1 ++ [(z_slot zi, t0 :: tl0)]). split; [rewrite app_assoc; reflexivity|].
       intros x Hx. apply in_app_or in Hx as [Hx|[<-|[]]].
-      + destruct (HR x Hx) as [Hok Hin]. split; [apply removal_ok_into; auto|right; exact Hin].
+      + destruct (HR x Hx) as [Hok Hin]. split; [apply removal_ok_into_elem; auto|right; exact Hin].
       + split; [|left; reflexivity]. exists []. split; [cbn [anc_decls fst]; rewrite N.eqb_refl; reflexivity|].
         cbn [snd app]. exact Hrem.
   Qed.
@@ -167,30 +176,39 @@ Section D.
   Theorem dedup_removes_only_declared_above z e nss ns :
     NoDup (z_slot z :: ids (z_kids z)) ->
     In (e, nss) (dedup_edges nm (traverse z) (fs_new []) [] []) -> In ns nss ->
-    exists l, anc_decls e (FCons (z_slot z) (z_val z) (z_kids z) FNil) = Some l /\ In ns (map snd (concat l)).
+    exists l q, anc_decls e (FCons (z_slot z) (z_val z) (z_kids z) FNil) = Some l /\ In (q, ns) (flat l []).
   Proof.
     intros Hnd Hin Hns. unfold traverse in Hin. rewrite dedup_filter in Hin. unfold arena_traverse in Hin.
     destruct (dedup_node z [] (fs_new []) [] [] [] (dedup_level (z_kids z)) Hnd) as (tr' & R & Hrun & HR).
-    { intros b Hb. destruct Hb. }
+    { reflexivity. }
     change ([EEnd z]) with (EEnd z :: []) in Hin. rewrite Hrun in Hin. cbn [dedup_edges app] in Hin.
-    destruct (HR _ Hin) as [(l & Hl & H) _]. cbn [fst snd] in *. exists l. split; [exact Hl|].
-    specialize (H ns Hns). rewrite app_nil_r in H. exact H.
+    destruct (HR _ Hin) as [(l & Hl & H) _]. cbn [fst snd] in *. destruct (H ns Hns) as [q Hq]. rewrite app_nil_r in Hq.
+    exists l, q. auto.
   Qed.
 
-  (* every deleted declaration: it exists on its element, and its namespace is declared by a proper ancestor of that element
-     inside the subtree the call was made on *)
+  Lemma flat_nodup l : Forall (fun d => NoDup (map fst d)) l -> NoDup (map fst (flat l [])).
+  Proof.
+    induction l as [|d l IH]; intros H; cbn [flat]; [constructor|]. inversion H; subst. apply info_new_nodup; [assumption|apply IH; assumption].
+  Qed.
+
+  (* every deleted declaration: it exists on its element, and its namespace is bound — by nearest-declaration-wins scoping over
+     the declarations of the element's proper ancestors inside the subtree, i.e. in force at the element's parent — to a prefix *)
   Theorem dedup_only_redundant z e p :
     NoDup (z_slot z :: ids (z_kids z)) ->
     In (e, p) (dedup_prefixes z (dedup_edges nm (traverse z) (fs_new []) [] [])) ->
-    exists ez ns l, In ez (descendants z) /\ z_slot ez = e /\ In (p, ns) (declarations ez)
-      /\ anc_decls e (FCons (z_slot z) (z_val z) (z_kids z) FNil) = Some l /\ In ns (map snd (concat l)).
+    exists ez ns l q, In ez (descendants z) /\ z_slot ez = e /\ In (p, ns) (declarations ez)
+      /\ anc_decls e (FCons (z_slot z) (z_val z) (z_kids z) FNil) = Some l
+      /\ (Forall (fun d => NoDup (map fst d)) l -> lookup_stack q l = Some ns).
   Proof.
     intros Hnd H. unfold dedup_prefixes in H. apply in_flat_map in H as [[e' nss] [Hfix H]].
     destruct (List.find (fun d => N.eqb (z_slot d) e') (descendants z)) as [ez|] eqn:Ef; [|destruct H].
     apply find_some in Ef as [Hin He]. apply N.eqb_eq in He.
-    apply in_flat_map in H as [ns [Hns H]]. apply in_map_iff in H as [[q m] [Heq H]]. inversion Heq; subst.
+    apply in_flat_map in H as [ns [Hns H]]. apply in_map_iff in H as [[q0 m] [Heq H]]. inversion Heq; subst.
     apply filter_In in H as [H Hm]. cbn in Hm. apply N.eqb_eq in Hm. subst.
-    destruct (dedup_removes_only_declared_above z _ nss ns Hnd Hfix Hns) as (l & Hl & Hk).
-    exists ez, ns, l. auto.
+    destruct (dedup_removes_only_declared_above z _ nss ns Hnd Hfix Hns) as (l & q & Hl & Hq).
+    exists ez, ns, l, q. split; [exact Hin|]. split; [reflexivity|]. split; [exact H|]. split; [exact Hl|].
+    intros Hnodup. pose proof (flat_is_nearest_wins q l [] Hnodup) as F.
+    apply (assoc_p_in q ns _ (flat_nodup l Hnodup)) in Hq. rewrite Hq in F. cbn [assoc_p] in F.
+    destruct (lookup_stack q l); [congruence|discriminate].
   Qed.
 End D.
